@@ -39,6 +39,13 @@ def index (s : Bytes) (i : Nat) : Res UInt8 :=
   | some b => .ok b
   | none => .panic "index-out-of-range"
 
+/-- Go's `s[i]` with a signed index (Go's `int`) -/
+def indexI (s : Bytes) (i : Int) : Res UInt8 :=
+  if i < 0 then .panic "index-out-of-range" else index s i.toNat
+/-- Go's `s[lo:hi]` with signed bounds -/
+def sliceI (s : Bytes) (lo hi : Int) : Res Bytes :=
+  if lo < 0 ∨ hi < 0 then .panic "slice-bounds" else slice s lo.toNat hi.toNat
+
 /-- `strconv.ParseUint(s, base, bits)` for base 8 or 10 given explicitly: digits only (no sign, no
     underscore, no prefix), non-empty, value < 2^bits; otherwise an error. -/
 def digitVal (base : Nat) (c : UInt8) : Option Nat :=
